@@ -66,7 +66,7 @@ def gen_cells(tier):
                            "eqmask": [True, False, True, False, False]}
 
 
-CTORS = ["Rx", "Ry", "Rz", "RPY", "Eul", "Tx", "Ty", "Tz", "SO2", "Twist3.Rx", "Twist3.Ry", "Twist3.Rz", "UQ.Rx", "UQ.Ry", "UQ.Rz", "SE3(Nx3)", "Exp"]
+CTORS = ["Rx", "Ry", "Rz", "RPY", "Eul", "Tx", "Ty", "Tz", "SO2", "Twist3.Rx", "Twist3.Ry", "Twist3.Rz", "UQ.Rx", "UQ.Ry", "UQ.Rz", "SE3(Nx3)", "Exp", "SO3.Exp(Nx3)", "SE2.Exp(list)", "SO2.Exp(list)"]
 ORDERS = ["zyx", "xyz", "yxz", "arm", "vehicle", "camera"]
 
 
@@ -126,6 +126,23 @@ def _ctor(case):
         cls = L.SE3
         multi = lambda: L.SE3(np.array(rows))
         single = lambda i: L.SE3(rows[i])
+    elif ct == "SO3.Exp(Nx3)":
+        # documented third call form: an Nx3 matrix of so(3) vectors, one per row (a 3x3 array needs so3=False)
+        if M == 1:
+            return c.out
+        cls = L.SO3
+        multi = (lambda: L.SO3.Exp(np.array(rows), so3=False)) if M == 3 else (lambda: L.SO3.Exp(np.array(rows)))
+        single = lambda i: L.SO3.Exp(np.array(rows[i]))
+    elif ct == "SE2.Exp(list)":
+        if M == 1:
+            return c.out
+        cls = L.SE2
+        multi = lambda: L.SE2.Exp([np.array(r) for r in rows])
+        single = lambda i: L.SE2.Exp(np.array(rows[i]))
+    elif ct == "SO2.Exp(list)":
+        cls = L.SO2
+        multi = lambda: L.SO2.Exp([L.base.skew(a) for a in angs])
+        single = lambda i: L.SO2.Exp(L.base.skew(angs[i]))
     else:   # Exp of a list of twists
         cls = L.SE3
         tw = [r + r[::-1] for r in rows]
